@@ -11,7 +11,7 @@ import io
 import casadi as ca
 
 from cyverif import ir
-from cyverif.harness import Ob, PROVED, REFUTED, Result, cells
+from cyverif.harness import ASSUMED, Ob, PROVED, REFUTED, UNDECIDED, Result, cells
 from cyverif.harness import Trace as _Trace
 from cyverif.sorts import Angle, Composite, Const, Free, LowerTri, Pos, UnitQuat
 from . import spec
@@ -304,6 +304,205 @@ def initialize_trace():
         note="accepted cell (error code 0); requires magnetic inclination in (-90, 90) deg (cos incl > 0)")
 
 
+class GuardedOps:
+    """'an accepted call returns finite values, never NaN': every division (and asin / acos / sqrt) of the real step function
+    whose divisor does not involve the covariance factor W must be safe wherever its value is USED: the conditions of the
+    if_else_zero nodes that dominate every use (cyverif.fperr.use_guards), together with the accept condition
+    error_code == 0 and the requires on the inputs, must exclude divisor = 0 (argument outside the domain).  Each query is
+    small (only the condition and divisor sub-graphs reach z3).  A satisfiable query is a VIOLATION only if the model, or one
+    of a few special inputs, makes the real function return NaN / inf with error code 0; queries the solver cannot decide
+    and divisors inside the callee util.sqrt_correct (functions of W; contract C10 for well-conditioned factors) are listed
+    as assumptions."""
+
+    def __init__(self, name, derive, in_names, requires, specials):
+        self.id = f"C11.{name}.guarded-operations"
+        self.name, self.derive, self.in_names, self.requires, self.specials = name, derive, in_names, requires, specials
+        self.functions = [derive]
+        self.lemmas = []
+        self.assumptions = []
+
+    def run(self, seed=0):
+        import math
+        import time as _t
+        import z3
+        from cyverif import fperr, ir, smt
+        t0 = _t.time()
+        R = []
+        with contextlib.redirect_stdout(io.StringIO()):
+            F = self.derive()
+        ins = {n: ca.SX.sym(n, F.sparsity_in(i)) for i, n in enumerate(self.in_names)}
+        outs_sx = F(*ins.values())
+        outs_sx = list(outs_sx) if isinstance(outs_sx, (list, tuple)) else [outs_sx]
+        dense_ins = {}
+        sub_from, sub_to = [], []
+        for n, sx in ins.items():  # the extractor wants dense symbolic inputs
+            d = ca.SX.sym(n, *sx.shape)
+            dense_ins[n] = d
+            sub_from.append(sx)
+            sub_to.append(ca.project(d, sx.sparsity()) if sx.nnz() != d.nnz() else d)
+        outs_sx = ca.substitute(outs_sx, sub_from, sub_to)
+        names = [F.name_out(i) for i in range(F.n_out())]
+        g, on, n_instr = ir.extract(dense_ins, {nm: o for nm, o in zip(names, outs_sx)})
+        roots = [x for nm in names for row in on[nm] for x in row if x is not None]
+        code = on["error_code"][0][0]
+        guards = fperr.use_guards(g, roots)
+        anc = sorted(g.ancestors(roots))
+        zin = {}
+        for n, d in dense_ins.items():
+            for i in range(d.shape[0]):
+                for j in range(d.shape[1]):
+                    zin[(n, i, j)] = z3.Real(f"{n}_{i}_{j}")
+        enc = smt.IRSMT(g, zin)
+
+        def hook(self_, n):  # inverse trig / trig by weak axioms (enough for "argument != 0" style guards)
+            op, args, _ = g.nodes[n]
+            u = self_.e(args[0])
+            v = self_.fresh(op.lower())
+            if op == "ASIN":
+                self_.side += [v * u >= 0, (u == 0) == (v == 0), z3.If(u >= 0, v >= u, v <= u), v <= 2, v >= -2]
+            elif op == "ACOS":
+                self_.side += [v >= 0, v <= 4, (u == 1) == (v == 0)]
+            elif op in ("SIN", "COS"):
+                pair = trig.get(args[0])
+                if pair is None:
+                    pair = trig[args[0]] = (self_.fresh("sin"), self_.fresh("cos"))
+                    self_.side.append(pair[0] * pair[0] + pair[1] * pair[1] == 1)
+                return pair[0] if op == "SIN" else pair[1]
+            elif op in ("TAN", "ATAN"):
+                pass
+            else:
+                return None
+            return v
+
+        trig = {}
+        enc.hook = hook
+        req = self.requires(zin)
+        accept = (enc.e(code) == 0) if code is not None else z3.BoolVal(True)
+        n_safe = n_contract = 0
+        open_items, bad = [], []
+        for n in anc:
+            op, args, _ = g.nodes[n]
+            if op not in ("DIV", "INV", "ASIN", "ACOS"):
+                continue
+            tgt = args[1] if op == "DIV" else args[0]
+            if g.op(tgt) == "CONST":
+                continue
+            sup = g.support([tgt])
+            if any(p[0] == "W" for p in sup):
+                n_contract += 1
+                continue
+            try:
+                cond = [enc.b(c) for c in guards.get(n, ())]
+                tz = enc.e(tgt)
+                viol = (tz == 0) if op in ("DIV", "INV") else z3.Or(tz > 1, tz < -1)
+                sol = z3.Solver()
+                sol.set("timeout", 8000)
+                for a_ in req + enc.side + cond + [accept, viol]:
+                    sol.add(a_)
+                r_ = sol.check()
+            except NotImplementedError as ex:
+                open_items.append(f"{op} node {n}: not translated ({ex})")
+                continue
+            if r_ == z3.unsat:
+                n_safe += 1
+            elif r_ == z3.sat:
+                m = sol.model()
+                vin = {nm: [[smt.model_value(m, zin[(nm, i, j)]) or 0.0 for j in range(d.shape[1])] for i in range(d.shape[0])] for nm, d in dense_ins.items()}
+                bad.append((op, n, vin))
+            else:
+                open_items.append(f"{op} node {n}: solver unknown")
+        # replay candidates on the real function
+        def nonfinite(vin):
+            if "W" in vin:
+                vin = dict(vin)
+                vin["W"] = [[(0.05 if i == j else 0.0) for j in range(6)] for i in range(6)]
+            res = F(*[ca.DM(vin[n]) for n in self.in_names])
+            res = list(res) if isinstance(res, (list, tuple)) else [res]
+            vals = {nm: [float(x) for x in ca.DM(r_).full().ravel()] for nm, r_ in zip(names, res)}
+            if vals["error_code"][0] == 0 and any(math.isnan(x) or math.isinf(x) for nm in names for x in vals[nm]):
+                return vals
+            return None
+
+        witness = None
+        for op, n, vin in bad:
+            try:
+                vals = nonfinite(vin)
+            except Exception:
+                vals = None
+            if vals:
+                witness = {"inputs": vin, "outputs": vals, "node": f"{op} #{n}"}
+                break
+        if witness is None:
+            for vin in self.specials():
+                try:
+                    vals = nonfinite(vin)
+                except Exception:
+                    vals = None
+                if vals:
+                    witness = {"inputs": vin, "outputs": vals, "node": "special input"}
+                    break
+        nm = f"{self.name}: error code 0 => every returned value is finite (divisions / asin / acos outside the callee are guarded wherever their value is used)"
+        detail = (f"{n_safe} operations proved safe under their use-guards + accept condition; {n_contract} inside util.sqrt_correct (functions of W: callee contract); "
+                  f"{len(bad)} with a satisfiable zero-divisor query; {len(open_items)} not decided: {open_items[:4]}")
+        if witness is not None:
+            R.append(Result(self.id, nm, REFUTED, "SMT+EVAL", "", _t.time() - t0, detail + " | the real function returns a non-finite value with error code 0", witness, 1))
+        elif bad:
+            # the weak trig / inverse-trig axioms admit models the real functions do not have: not decided, listed as an
+            # unchecked assumption (never a violation without a non-finite output of the real function)
+            R.append(Result(self.id, nm, ASSUMED, "SMT", "", _t.time() - t0, detail + " | none of the models reproduces a non-finite output on the real function: "
+                            + "; ".join(f"{op} node {n}" for op, n, _ in bad[:6])))
+        else:
+            R.append(Result(self.id, nm, PROVED, "SMT", "", _t.time() - t0, detail, None, n_safe))
+        self.assumptions = [f"C11.{self.name}: {x}" for x in open_items[:8]]
+        return R
+
+    def replay(self, w):
+        rs = self.run()
+        return rs[0].status == REFUTED, rs[0].detail[:300]
+
+
+def guarded_jobs():
+    import z3
+
+    def req_accel(z):
+        return [z[("g", 0, 0)] >= 2, z[("std_accel", 0, 0)] > 0, z[("std_accel_omega", 0, 0)] >= 0, z[("beta_accel_c", 0, 0)] > 0]
+
+    def sp_accel():
+        base = {"x": [[0.0]] * 6, "W": None, "g": [[9.8]], "omega_m": [[0.0]] * 3, "std_accel": [[0.1]], "std_accel_omega": [[0.01]], "beta_accel_c": [[9.0]]}
+        out = []
+        for y in ([0, 0, -9.8], [0, 0, -9.0], [0, 0, 9.8], [0, 0, 0], [1e-300, 0, -9.8]):
+            for x in ([0.0] * 6, [0, 0, 0.4, 0, 0, 0], [0, 0, -1.0, 0.01, 0, 0]):
+                d = dict(base)
+                d["y_b"] = [[v] for v in y]
+                d["x"] = [[v] for v in x]
+                out.append(d)
+        return out
+
+    def req_mag(z):
+        return [z[("std_mag", 0, 0)] > 0, z[("beta_mag_c", 0, 0)] > 0]
+
+    def sp_mag():
+        out = []
+        for y in ([1, 0, 0], [0, 0, 1], [0, 0, 0], [0, 1, 0], [-1, 0, 0]):
+            for x in ([0.0] * 6, [0.4142, 0, 0, 0, 0, 0], [0, 0.4142, 0, 0, 0, 0]):
+                out.append({"x": [[v] for v in x], "W": None, "y_b": [[v] for v in y], "decl": [[0.1]], "std_mag": [[0.05]], "beta_mag_c": [[7.0]]})
+        return out
+
+    def req_init(z):
+        return []
+
+    def sp_init():
+        out = []
+        for g_b in ([0, 0, -9.8], [0, 0, 9.8], [9.8, 0, 0]):
+            for B in ([0.2, 0, 0.4], [0, 0, 1.0], [0, 0, -1.0], [0, 0, 0], [1e-9, 0, 1.0], [0, 0, 0.5], [0, 0, -0.5]):
+                out.append({"g_b": [[v] for v in g_b], "B_b": [[v] for v in B], "decl": [[0.2]]})
+        return out
+
+    return [GuardedOps("correct_accel", est.correct_accel, ["x", "W", "y_b", "g", "omega_m", "std_accel", "std_accel_omega", "beta_accel_c"], req_accel, sp_accel),
+            GuardedOps("correct_mag", est.correct_mag, ["x", "W", "y_b", "decl", "std_mag", "beta_mag_c"], req_mag, sp_mag),
+            GuardedOps("initialize", est.initialize, ["g_b", "B_b", "decl"], req_init, sp_init)]
+
+
 def traces(tier="quick"):
     T = [predict_trace()] + correct_callsite_traces()
     T.append(initialize_trace())
@@ -311,7 +510,7 @@ def traces(tier="quick"):
 
 
 def jobs(tier="quick"):
-    return [Structural()]
+    return [Structural()] + guarded_jobs()
 
 
 def canaries(tier="quick"):
